@@ -3,8 +3,13 @@ import CnbVerif.Gen.Tables
 import CnbVerif.Gen.Runtime
 /-!
 Model of `libcnb/src/runtime.rs`: `libcnb_runtime`, `libcnb_runtime_detect`, `libcnb_runtime_build`, `context_target`,
-`DetectArgs::parse` / `BuildArgs::parse`, in the code's own order. Exit codes come from `Gen.Tables`
-(`libcnb/src/exit_code.rs`), the supported API from `Gen.Runtime` (`libcnb/src/lib.rs`).
+`DetectArgs::parse` / `BuildArgs::parse`, `read_buildpack_dir`, in the code's own order. Exit codes come from `Gen.Tables`
+(`libcnb/src/exit_code.rs`), the supported API and the list of environment reads (which variable, in which order, what is done
+with the result: `Gen.contextTargetReads`, `Gen.buildpackDirRead`) from `Gen.Runtime` (`libcnb/src/lib.rs`, `runtime.rs`).
+
+The environment carries *values* (`Vars`: every variable is unset or set to text / to bytes that are not Unicode). `readVar`
+interprets one generated read on such a value; a read is unconditional by construction of `EnvUse` — there is no constructor
+for "required unless another variable says …", the translator reports such source as a broken tie.
 
 A phase returns what it did so far (`Eff`) together with `Except ErrKind Int` — the `crate::Result<i32, _>` of the
 Rust functions. `libcnb_runtime` turns `Ok code` into `exit(code)` and `Err e` into `on_error(e); exit(1)`.
@@ -29,11 +34,46 @@ structure Eff (P L S D : Type) where
 
 def Eff.none : Eff P L S D := {}
 
+/-- `std::env::var(NAME)`: the text of a variable that is set to valid Unicode; `VarError::NotPresent` / `NotUnicode` otherwise -/
+def envVar : Option EnvVal → Option String
+  | some (.text s) => some s
+  | _ => none
+
+def Vars.get (v : Vars) : VarName → Option EnvVal
+  | .bpDir => v.bpDir
+  | .os => v.os
+  | .arch => v.arch
+  | .variant => v.variant
+  | .dname => v.dname
+  | .dver => v.dver
+
+/-- one generated read applied to the variable's state: the value handed on (`none` = the `None` of an optional read) or the
+error that ends the phase. Nothing but this variable is consulted. -/
+def readVar : EnvUse → Option EnvVal → Except ErrKind (Option String)
+  | .required k, x => match envVar x with
+    | some s => .ok (some s)
+    | none => .error k
+  | .optionalOk, x => .ok (envVar x)
+  | .defaulted d, x => .ok (some ((envVar x).getD d))
+
+/-- the reads of a function one after the other (`?` after each): the first error ends it. The values read go into the
+`Target` / `buildpack_dir` handed to the buildpack; the decision logic never looks at them. -/
+def readAll : List (VarName × EnvUse) → Vars → Except ErrKind Unit
+  | [], _ => .ok ()
+  | (n, u) :: rest, v => match readVar u (v.get n) with
+    | .error k => .error k
+    | .ok _ => readAll rest v
+
+/-- `read_buildpack_dir` -/
+def readBuildpackDir (v : Vars) : Except ErrKind (Option String) :=
+  readVar Gen.buildpackDirRead.2 (v.get Gen.buildpackDirRead.1)
+
 /-- `read_buildpack_descriptor::<BuildpackDescriptorApiOnly>()` followed by the comparison with
 `LIBCNB_SUPPORTED_BUILDPACK_API`: `true` when the run may continue. `CNB_BUILDPACK_DIR` is read first. -/
 def apiCheck (v : Vars) (d : Desc) : Bool :=
-  if !v.bpDir then false
-  else match d with
+  match readBuildpackDir v with
+  | .error _ => false
+  | .ok _ => match d with
     | .api ma mi _ => (ma, mi) = Gen.supportedApi
     | _ => false
 
@@ -42,13 +82,8 @@ def descFullOk : Desc → Bool
   | .api _ _ restOk => restOk
   | _ => false
 
-/-- `context_target`: os, arch, (variant is optional: `.ok()`), distro name, distro version -/
-def contextTarget (v : Vars) : Except ErrKind Unit :=
-  if !v.os then .error .targetOs
-  else if !v.arch then .error .targetArch
-  else if !v.dname then .error .distroName
-  else if !v.dver then .error .distroVersion
-  else .ok ()
+/-- `context_target`: os, arch, (variant is optional: `.ok()`), distro name, distro version — the generated list -/
+def contextTarget (v : Vars) : Except ErrKind Unit := readAll Gen.contextTargetReads v
 
 /-- `fs::write` / `write_toml_file` onto a path -/
 def canWrite : Pre → Bool
@@ -58,8 +93,10 @@ def canWrite : Pre → Bool
 /-- `libcnb_runtime_detect` -/
 def detectPhase (i : Invocation P L S D) : Eff P L S D × Except ErrKind Int :=
   if !i.cwdOk then (Eff.none, .error .appDir)
-  else if !i.vars.bpDir then (Eff.none, .error .bpDir)
-  else if !descFullOk i.desc then (Eff.none, .error .descriptor)
+  else match readBuildpackDir i.vars with
+  | .error k => (Eff.none, .error k)
+  | .ok _ =>
+  if !descFullOk i.desc then (Eff.none, .error .descriptor)
   else if i.plat = .bad then (Eff.none, .error .platform)
   else match contextTarget i.vars with
     | .error k => (Eff.none, .error k)
@@ -113,8 +150,10 @@ def buildWrites (i : Invocation P L S D) (e : Eff P L S D) (r : BuildOk L S D) :
 /-- `libcnb_runtime_build` -/
 def buildPhase (i : Invocation P L S D) : Eff P L S D × Except ErrKind Int :=
   if !i.cwdOk then (Eff.none, .error .appDir)
-  else if !i.vars.bpDir then (Eff.none, .error .bpDir)
-  else if !descFullOk i.desc then (Eff.none, .error .descriptor)
+  else match readBuildpackDir i.vars with
+  | .error k => (Eff.none, .error k)
+  | .ok _ =>
+  if !descFullOk i.desc then (Eff.none, .error .descriptor)
   else if i.plat = .bad then (Eff.none, .error .platform)
   else if i.planIn ≠ .ok then (Eff.none, .error .planIn)
   else if i.storePre = .malformed ∨ i.storePre = .dir then (Eff.none, .error .store)
